@@ -148,7 +148,8 @@ CHECKS = {
              "both directions) interleaved with 21 kinds of garbage, to depth 4 / 2 deviations (quick) and 5 / 3 "
              "(thorough) from two bases, states deduplicated on full session, circuit, tracker and address-map state. Plus exhaustive sweeps: every garbage/valid "
              "interleaving in two deep base states, the SOCKS framing law over addresses x ports x payload lengths, and every template x value row in both "
-             "directions through one open circuit, with independently parsed SOCKS and LLUDP headers; plus repeated-garbage "
+             "directions through one open circuit (also through a neighbour circuit next to the open main circuit and through a neighbour registered without a "
+             "region handle, alone and next to the main circuit), with independently parsed SOCKS and LLUDP headers; plus repeated-garbage "
              "histories for every garbage kind (each banned name), socket-level faults (protocol.error_received with 4 errnos; EMSGSIZE from a real oversize "
              "inbound datagram) interleaved with valid traffic, and flood scenarios up to 300 distinct far addresses / source hosts / truncated datagrams before "
              "valid traffic.",
